@@ -735,20 +735,26 @@ class Model:
         if t in LOGIC_TYPES:
             raise Rejected('type', name, ctx, idx)
         pure = (t == 'string' and self.closure_types(name) <= {'string'})
+        # The manual is silent on list symbols, and on strings built from list / path symbols, inside a FILE-NAME.
+        # The program states its rule in the error message it gives: "Every symbol used as a path component of a path
+        # must be defined as a string", checked transitively ("Referenced via ...").  That rule is taken as the type
+        # demanded by these contexts.
         if ctx == 'fname0':
             if t == 'path' or pure:
                 return
-            raise Unspecified('list, or string built from path/list, at the start of a FILE-NAME')
+            raise Rejected('type' if t == 'list' else 'indirect', name, ctx, idx)
         if ctx == 'fname0r':
             if pure:
                 return
-            if self.begins_with_path(name):
-                raise Rejected('type' if t == 'path' else 'indirect', name, ctx, idx)
-            raise Unspecified('list / impure string as FILE-NAME')
-        if ctx in ('fname', 'pgmname'):
+            raise Rejected('type' if t in ('path', 'list') else 'indirect', name, ctx, idx)
+        if ctx == 'fname':
             if pure:
                 return
-            raise Unspecified('non-string data inside a file name / program name')
+            raise Rejected('type' if t in ('path', 'list') else 'indirect', name, ctx, idx)
+        if ctx == 'pgmname':
+            if pure:
+                return
+            raise Unspecified('non-string data inside a program name')
         if ctx == 'int':
             involved = {t} | self.closure_types(name)
             if involved <= {'string'}:
